@@ -11,34 +11,72 @@ other languages, ranges set and cleared, reset), whether logging is on, or wheth
 cancelled by the progress callback at any point and then resumed. After a cancelled parse, reset
 makes the parser behave like a new one."
 
-Clause map (theorems are about the ports `Utf8.lean` (= `ts_decode_utf8`/`U8_NEXT`) and
-`C13/Lexer.lean` (= `lexer.c`), tied to the C code by scripted runs of the real lexer under chunkers):
+Clause-by-clause map (phrase of the property text → theorem; PROVED = kernel-checked ∀-theorem about the ports
+`Utf8.lean` (= `ts_decode_utf8`/`U8_NEXT`, `ts_decode_utf16_le/_be`) and `C13/Lexer.lean` (= `lexer.c`), tied to the C
+code by scripted runs of the real lexer under chunkers; JUDGED = the Lean judge compares the full dump of the tree of
+every drive with the dump of the canonical drive (fresh parser, one chunk, UTF-8, nothing switched on) — implementation
+against implementation, there is no model of `TSParser`):
 
-* chunk boundaries do not matter for the characters the lexer sees → `lookahead_chunk_indep`
-  (what `ts_lexer__get_lookahead` computes — ASCII shortcut, decode, retry with a fresh chunk —
-  equals the decoding of the rest of the text, for EVERY chunking and EVERY cached chunk, PROVIDED
-  the chunk returned at that offset holds the whole character: `wholeCharAt`), built on
-  `decode_prefix_stable`, `decode_local` (the decoder port is local: ≤ 4 bytes, prefix-stable).
-  `chars_chunk_dep_witness`: without the proviso it is false (`€` in 1-byte chunks is three errors)
-  — genuine finding C09-short-chunk-at-char-start.
-  `chars_chunk_indep`, `chars_chunk_indep_two`: the same for the WHOLE sequence `(offset, code point,
-  size)`, by induction over repeated advance with the invariant "cached chunk is a prefix of the text
-  at `chunk_start`", for the chunk logic `coreChars` (fetch / decode with retry / advance by size).
-  `lexStream_eq_coreChars`, `chars_chunk_indep_port`: the FULL port (`set_input`, `start`, `advance` with the
-  ASCII fast path, row/column/column-cache updates, the range loop over the default range) produces exactly
-  that sequence, for every chunking of a text < 2^32 bytes that does not begin with a BOM (the BOM skip of
-  `ts_lexer_start` is the one case left to the per-drive check of the driver).
-* UTF-16 delivery → `utf16_decode_encode` (the UTF-16LE/BE decoder port, with the trail unit converted like the
-  lead unit, reads back every scalar value from its encoding) and `utf16be_trail_witness` (unicode.h as it is
-  does NOT for UTF-16BE on a little-endian host: genuine finding C09-utf16be-surrogate-pair, fix proposed).
-  `utf8_decode_encode` (the `U8_NEXT` port reads back every scalar value from its UTF-8 encoding) and
-  `utf16_utf8_same_chars` (same code points from the UTF-8 and the UTF-16LE/BE encoding of any scalar sequence,
-  sizes = encoding lengths).  `column_cache_eq` (+ `doAdvance_col`): the exact invariant of `column_data` — a valid cache holds the
-  number of characters consumed since the state in which it was set to 0 (one per `do_advance` on the same
-  line, a BOM at offset 0 not counted, validity preserved), and the recomputation loop of `get_column`
-  started from that state replays the run and returns the same number.
-* UTF-16 delivery, parser history, logger, cancellation + resume/reset → no model of `TSParser`;
-  decided per real case by the Lean judge on full dumps (implementation vs implementation).
+A. "The tree returned for a document does not depend on how the parse was driven" — the quantifier over drives; see
+   the table of sources below.  Tree level: JUDGED for every drive; PROVED only for deterministic parsing as a
+   function of the lexer's observations (`TreeLevel.lean`: `driver_chunk_indep`; modelling claim not proved).
+B. "the chunk boundaries of the read callback"
+   * PROVED, lexer level: `decode_local` (decoder looks at ≤ 4 bytes, prefix-stable) → `lookahead_chunk_indep` (what
+     `ts_lexer__get_lookahead` computes — ASCII shortcut, decode, retry with a fresh chunk — is the decoding of the
+     rest of the text for EVERY chunking and EVERY cached chunk, provided the chunk returned at that offset holds the
+     whole character, `wholeCharAt`) → `chars_chunk_indep`, `chars_chunk_indep_two` (whole sequence `(offset, code
+     point, size)` for the chunk logic `coreChars`) → `lexStream_eq_coreChars`, `chars_chunk_indep_port` (the FULL
+     port: `set_input`, `start`, `advance` with the ASCII fast path, row/column/column-cache updates, range loop over
+     the default range).  Hypotheses: `WholeChar` (NEEDED: `chars_chunk_dep_witness`, finding
+     C09-short-chunk-at-char-start), text < 2^32 bytes, text does not begin with a BOM (the BOM skip of
+     `ts_lexer_start` is left to the per-drive check `model:coreChars=lexStream`).
+   * columns under chunking: `column_cache_eq` (+ `doAdvance_col`) — a valid column cache equals what the
+     recomputation loop of `get_column` returns.
+   * JUDGED: fixed 1/2/3/4/7-byte chunks, every split of documents ≤ 9 bytes, random splits (also inside
+     characters), byte- and point-addressed callbacks.
+C. "UTF-8 versus UTF-16LE/BE delivery of the same characters (offsets map one-to-one)"
+   * PROVED, decoder level: `utf8_decode_encode`, `utf16_decode_encode` (each decoder port reads back every scalar
+     value from its encoding), `utf16_utf8_same_chars` (same code points from both encodings of any scalar sequence,
+     sizes = encoding lengths), `offsets_one_to_one` (TreeLevel.lean: the character starts in the two encodings are
+     strictly increasing lists of equal length).  `utf16be_trail_witness`: unicode.h before /repo 6297e1d did NOT read
+     UTF-16BE surrogate pairs (finding C09-utf16be-surrogate-pair, fixed; both decoder variants are carried and the
+     check picks the one /repo behaves like).
+   * NOT proved: the lexer port run over a UTF-16 input (the port is instantiated with the UTF-8 decoder; the chunk
+     theorems B are stated for UTF-8 only).
+   * JUDGED: UTF-16LE/BE whole, chunked, point-addressed; positions compared through the offset map; for erroneous
+     texts the trees can differ genuinely (finding C09-utf16-error-recovery: costs count BYTES).
+D. "whether the parser object is new or was used before (other documents, other languages, ranges set and cleared,
+   reset)" — JUDGED only (histories of 1–5 operations, see table).
+E. "whether logging is on" — JUDGED only (logger on; dot graphs on; both; switched on and off again before).
+F. "whether the parse was cancelled by the progress callback at any point and then resumed" — JUDGED only: every
+   callback index when ≤ 12 (else sampled), resumed with the same input (whole or in 4-byte chunks).  Genuinely false
+   in two ways, both from the round restarting at stack version 0: findings C09-resume-error-recovery (erroneous
+   texts) and C09-resume-token-parse-state (error-free: only recorded parse states / fragile marks differ); hidden
+   repeat-node rotation is accepted when the visible trees are identical (counted, `internal`).
+G. "After a cancelled parse, reset makes the parser behave like a new one." — JUDGED only: cancel at index k, reset,
+   parse afresh (never failed); inside histories: cancelled parses of this and of another document, in this and in
+   another language, cleared by `reset` or by `set_language`.
+
+Sources of variation the property quantifies over — theorem (lexer level) / judged on real runs / known finding:
+
+| source | theorem | judged drives (`drives_by_source` in the evidence) | findings |
+|---|---|---|---|
+| chunk boundaries, byte-addressed | B | `c<k>`, `s<splits>` | short-chunk-at-char-start |
+| chunk boundaries, point-addressed callback | – (the port ignores the point; the tie checks the points handed out) | `pt:c<k>` | – |
+| encoding UTF-16LE / BE | C (decoder level) | `u16le`, `u16be`, `:c<k>`, `:pt:c<k>` | utf16be-surrogate-pair (fixed), utf16-error-recovery |
+| encoding: custom decode function | – | `custom:c<k>` (a UTF-8 decoder passed as `TSInputEncodingCustom`) | – |
+| callback style: whole slice vs callback | – | canonical = `Parser::parse(slice)`; every other drive is a callback | – |
+| parser reuse: other / same / half document | – | `hist:other|same|half` | – |
+| old-tree-less re-parse after an incremental parse | – | `hist:incr`, `hist:same` | – |
+| other language, switched back (with parse / without / with a pending cancelled parse) | – | `hist:lang|flip|langcancel` | – |
+| ranges set and cleared (with / without a parse) | – | `hist:ranges|rset` | – |
+| `ts_parser_reset` (idle / after cancel at first or later callback / after cancel of another document) | – | `hist:reset|cancel|cancelk|cancelo`, `cancel:<k>:reset` | – |
+| cancelled parse cleared by `set_language` instead of `reset` | – | `hist:cancelsl` | – |
+| first parse of the object FAILED (no language assigned) | – | `failed` | – |
+| logger on / dot graphs on / both / switched off again | – | `log`, `dot`, `dotlog`, `hist:logoff|dotoff` | – |
+| resume after cancellation | – | `cancel:<k>:resume`, `:resume4` | resume-error-recovery, resume-token-parse-state |
+| timeout / cancellation flag | n/a: removed from the API at this HEAD (`api.h` has neither; the progress callback is the only way to stop a parse) | – | – |
+| wasm store, `set_language` with an incompatible ABI | out of scope (no parse happens) | – | – |
 -/
 namespace TsVerif.C09
 open TsGen TsVerif.Lex TsVerif.Utf
